@@ -447,6 +447,13 @@ static void convert_pp_number(Token *tok) {
   if (tok->loc + tok->len != end)
     error_tok(tok, "invalid numeric constant");
 
+  // Convert directly to the type of the constant. Rounding to long
+  // double first and to float/double later would round twice.
+  if (ty == ty_float)
+    val = strtof(tok->loc, NULL);
+  else if (ty == ty_double)
+    val = strtod(tok->loc, NULL);
+
   tok->kind = TK_NUM;
   tok->fval = val;
   tok->ty = ty;
